@@ -61,7 +61,7 @@ SymNames  == {"S1", "S2", "S3", "S4", "S5", "S6", "S7", "S8"}
 ZoneNames == {"GLOBAL", "z1", "z2", "z3", "z4", "z5", "z6", "z7", "z8", "z9", "z10", "z11", "z12"}
 
 \* scope class of a name: global, file or local ("k.." are constants)
-Cls(n) == CASE n \in {"g1", "g2", "g3", "kg1", "kg2", "pd1", "pc1", "rg"} -> "g"
+Cls(n) == CASE n \in {"g1", "g2", "g3", "kg1", "kg2", "pd1", "pd2", "pc1", "rg"} -> "g"
             [] n \in {"f1", "f2", "kf1"} -> "f"
             [] n \in {"l1", "l2"} -> "l"
             [] OTHER -> "g"
@@ -177,8 +177,11 @@ LineObj(i, l, comp, muted, zone, file, region) ==
      zone |-> zone, file |-> file, region |-> region]
 
 \* operand substitution of a defined preprocessor symbol (whole word; C09 is decided in Symbols.tla)
+\* kinds whose operand is a reference (or a literal): brl is a branch whose field carries target - own address, mbr a macro whose
+\* MIDDLE step is that branch (nop / bra @ARG(0) / nop): the step's own address is the macro's address + 1
+RefKinds == {"i2", "i3", "byte", "brl", "mbr"}
 Subst(l, defs) ==
-    IF l.k \in {"i2", "i3", "byte"} /\ l.n \in SymNames /\ defs[l.n] # Undef
+    IF l.k \in RefKinds /\ l.n \in SymNames /\ defs[l.n] # Undef
     THEN [l EXCEPT !.n = "", !.a = Val(defs, l.n)] ELSE l
 
 AddLine(r, lo) == [r EXCEPT !.lines = Append(@, lo)]
@@ -254,10 +257,10 @@ ReadAll(r, p, j) == IF j > Len(p) \/ r.status # "run" THEN r ELSE ReadAll(ReadSt
 ---------------------------------------------------------------------------
 (* Pass 1 (C02, C05): addresses, sizes, zone cursors, label binding.       *)
 
-ByteKinds == {"i1", "m2", "ustr", "wstr", "rstr", "i2", "i3", "byte", "fill", "zero", "zuntil", "pdata", "raw"}
+ByteKinds == {"brl", "mbr", "i1", "m2", "ustr", "wstr", "rstr", "i2", "i3", "byte", "fill", "zero", "zuntil", "pdata", "raw"}
 
 SizeOf(lo, addr) ==
-    CASE lo.k = "i1" -> 1 [] lo.k = "i2" -> 2 [] lo.k = "i3" -> 3 [] lo.k = "m2" -> 2 [] lo.k = "ustr" -> 2
+    CASE lo.k = "i1" -> 1 [] lo.k = "i2" -> 2 [] lo.k = "i3" -> 3 [] lo.k = "m2" -> 2 [] lo.k = "ustr" -> 2 [] lo.k = "brl" -> 2 [] lo.k = "mbr" -> 4
       [] lo.k = "wstr" -> 4             \* .2byte "AB": every character of the string is a value of the directive's width
       [] lo.k = "rstr" -> 3             \* an embedded string "é" written with the character itself: its two UTF-8 bytes and the terminator
       [] lo.k = "byte" -> lo.b
@@ -348,6 +351,13 @@ BytesOf(o, tab) ==
       [] o.k = "i2" -> IF v = Undef THEN [bytes |-> <<>>, err |-> "unresolved"]
                        ELSE IF ~Fits(v, 8) THEN [bytes |-> <<>>, err |-> "fit"]
                        ELSE [bytes |-> <<168, Mod256(v)>>, err |-> ""]
+      \* the field of a relative branch is the distance from the address pass 1 assigned to the branch itself
+      [] o.k = "brl" -> IF v = Undef THEN [bytes |-> <<>>, err |-> "unresolved"]
+                        ELSE IF ~Fits(v - o.addr, 8) THEN [bytes |-> <<>>, err |-> "fit"]
+                        ELSE [bytes |-> <<216, Mod256(v - o.addr)>>, err |-> ""]
+      [] o.k = "mbr" -> IF v = Undef THEN [bytes |-> <<>>, err |-> "unresolved"]
+                        ELSE IF ~Fits(v - (o.addr + 1), 8) THEN [bytes |-> <<>>, err |-> "fit"]
+                        ELSE [bytes |-> <<234, 216, Mod256(v - (o.addr + 1)), 234>>, err |-> ""]
       [] o.k = "i3" -> IF v = Undef THEN [bytes |-> <<>>, err |-> "unresolved"]
                        ELSE IF ~Fits(v, 16) THEN [bytes |-> <<>>, err |-> "fit"]
                        ELSE [bytes |-> <<182, Mod256(v), Mod256((v % 65536) \div 256)>>, err |-> ""]
